@@ -86,6 +86,18 @@ def cases(rng, tier):
 		yield ('s', 'server', t, tuple(cuts))
 		t2 = b'HTTP/1.1 200 OK\r\nTransfer-Encoding: chunked\r\n\r\n' + tail
 		yield ('s', 'client', t2, ((), tuple(range(1, len(t2)))))
+	# coded bodies that end too early or announce what is not there (gzip members cut at every kind of place, a second member begun,
+	# optional header fields announced and absent; zlib streams cut), Content-Length framed and chunked, on both sides
+	full_gz = gzipmod.compress(b'hello world ' * 10)
+	full_zl = zlib.compress(b'hello world ' * 10)
+	broken = [full_gz[:n] for n in (1, 2, 3, 9, 10, 12, len(full_gz) // 2, len(full_gz) - 8, len(full_gz) - 4, len(full_gz) - 1)] + [full_gz + full_gz[:5], full_gz + b'\x1f', full_gz + b'x',
+		b'\x1f\x8b\x08\x04' + full_gz[4:10], b'\x1f\x8b\x08\x08' + full_gz[4:10], b'\x1f\x8b\x08\x10' + full_gz[4:10], b'\x1f\x8b\x08\x02' + full_gz[4:]]
+	broken_zl = [full_zl[:n] for n in (1, 2, 3, len(full_zl) // 2, len(full_zl) - 4, len(full_zl) - 1)] + [full_zl + b'x']
+	for name_, bodies_ in ((b'gzip', broken), (b'deflate', broken_zl), (b'gzip', broken_zl[:2]), (b'deflate', broken[:3])):
+		for bd in bodies_:
+			yield ('s', 'server', b'POST / HTTP/1.1\r\nHost: h\r\nContent-Encoding: ' + name_ + b'\r\nContent-Length: %d\r\n\r\n' % len(bd) + bd, ((),))
+			yield ('s', 'client', b'HTTP/1.1 200 OK\r\nContent-Encoding: ' + name_ + b'\r\nContent-Length: %d\r\n\r\n' % len(bd) + bd, ((),))
+			yield ('s', 'server', b'POST / HTTP/1.1\r\nHost: h\r\nContent-Encoding: ' + name_ + b'\r\nTransfer-Encoding: chunked\r\n\r\n%x\r\n' % len(bd) + bd + b'\r\n0\r\n\r\n', ((),))
 	# bracketed hosts of every sort in the target and in the Host field: address literals, IPvFuture with odd versions, look-alikes
 	for h in (b'[vx.y]', b'[v.addr]', b'[v1_0.a]', b'[vzz.1]', b'[vhost.example.com]', b'[vF.a]', b'[v1.fe:DC]', b'[V1.a]', b'[v\xb2.a]', b'[v1.]', b'[v.]', b'[v-1.a]', b'[v+1.a]', b'[v 1.a]', b'[v1a.b]',
 			b'[v0x1.a]', b'[::1]', b'[::g]', b'[1.2.3.4]', b'[]', b'[', b']', b'[::1%25eth0]', b'[' + b'1:' * 40 + b']', b'[v' + b'9' * 5000 + b'.a]'):
